@@ -126,6 +126,76 @@ def make_factory(H, n, quick):
     return make
 
 
+def tokenizer_factory(H, n):
+    """D3: tokenize, run twice on the same symbolic text with independent hash-iteration orders, reports
+    the same diagnostics in the same order.  Texts of n characters whose first and last are unexpected
+    symbols (so that at least two diagnostics exist), the middle ones blanks, letters or symbols."""
+    from gramsym import text as X
+
+    def make():
+        ex, it = H.engine(solver_timeout_ms=120000)
+        ex.fuel = 20000
+        it.hash_order_nondet = True
+        tm = X.TextModel(H.get_replay(), n=n)
+        ill = [36, 64, 0xA7]
+        mid = [32, 120, 36, 10]
+
+        def run_once(ex):
+            r = it.resolve(it.call("tokenizer", "tokenize", [none(), tm.text]))
+            if r.variant != "Err":
+                return None
+            out = []
+            for e in r.fields[0]:
+                e = it.deref(e)
+                rng = e.fields.get("range")
+                rng = it.deref(rng) if rng is not None else None
+                out.append(None if rng is None else (rng.fields["start"], rng.fields["end"]))
+            return out
+
+        def body(ex):
+            it.call_depth = 0
+            for c in tm.domain():
+                ex.add(c)
+            for k, cp in enumerate(tm.cps):
+                al = ill if k in (0, n - 1) else mid
+                ex.add(z3.Or(*[cp == a for a in al]))
+            it.text = tm
+            info = lambda m: {"text": tm.text.concrete(m)}
+            try:
+                s1 = run_once(ex)
+                s2 = run_once(ex)
+            except PanicEx as p:
+                ex.check(False, "PANIC %s (%s.rs:%s)" % (p.msg, p.module, p.line), info=info)
+                return
+            if s1 is None or s2 is None:
+                ex.check(s1 is None and s2 is None, "D3.tokenizer-verdict-independent-of-hash-order", info=info)
+                return
+            ex.count("errors:%d" % len(s1))
+            same = len(s1) == len(s2)
+            if same:
+                for a, b in zip(s1, s2):
+                    if (a is None) != (b is None):
+                        same = False
+                        break
+                    if a is not None:
+                        same = z_and(same, z_eq(a[0], b[0]), z_eq(a[1], b[1]))
+            ex.check(same, "D3.tokenizer-diagnostics-independent-of-hash-iteration-order (%d vs %d errors)" % (len(s1), len(s2)), info=info)
+        return ex, body, None
+    return make
+
+
+def confirm_tokenizer(H, label, case):
+    replay = H.get_replay()
+    outs = {}
+    for i in range(60):
+        r = replay.call({"op": "tokenize", "source": case["text"]})
+        key = json.dumps(r.get("err", r))
+        outs[key] = outs.get(key, 0) + 1
+    if len(outs) > 1:
+        return True, "tokenize(%r): 60 runs of the compiled tokenizer gave %d different diagnostic sequences (%s)" % (case["text"], len(outs), sorted(outs.values()))
+    return False, "tokenize(%r): 60 runs gave identical output" % case["text"]
+
+
 def confirm(H, label, case):
     """Native: run the compiled check_definitions many times (every HashSet gets fresh random keys)
     and look for two different outputs."""
@@ -149,7 +219,8 @@ def main():
     if H.args.replay:
         with open(H.args.replay) as fh:
             rec = json.load(fh)
-        reproduced, detail = confirm(H, rec["label"], rec["case"])
+        fn = confirm_tokenizer if rec["label"].startswith("D3") else confirm
+        reproduced, detail = fn(H, rec["label"], rec["case"])
         print(("REPRODUCED: " if reproduced else "NOT REPRODUCED: ") + detail)
         return 1 if reproduced else 0
     import c01
@@ -163,6 +234,15 @@ def main():
         H.log("%s: %d paths %s, %d obligations, %d discharged, %d workers, %.1fs" % (
             name, m.stats.get("paths", 0), m.counters, m.stats.get("obligations", 0), m.stats.get("discharged", 0), m.workers, time.time() - t0))
         c03.handle(H, m.violations, confirm_fn=confirm, classify_fn=lambda l, c: None)
+    for n in (2, 3):
+        name = "tokenize on texts of %d characters with unexpected symbols, two independent iteration orders" % n
+        t0 = time.time()
+        m = parallel_explore(tokenizer_factory(H, n), min(H.jobs, 4))
+        H.absorb_merged(name, m)
+        H.log("%s: %d paths %s, %d obligations, %d discharged, %d workers, %.1fs" % (
+            name, m.stats.get("paths", 0), m.counters, m.stats.get("obligations", 0), m.stats.get("discharged", 0), m.workers, time.time() - t0))
+        c03.handle(H, m.violations, confirm_fn=confirm_tokenizer, classify_fn=lambda l, c: None)
+    H.bounds["tokenizer"] = "texts of 2-3 characters whose first and last are unexpected symbols ($, @, a non-ASCII symbol)"
     H.samples.append({"family": "x = f(y, z); y = ..; z = ..; body  with symbolic references", "orders": "every pair of iteration orders of every hash set iterated"})
     H.bounds.update({"programs": "definition groups of %s definitions over literals, variables, negation, sums, calls, lambdas; which definition mentions which is symbolic" % sizes,
                      "outside": "separate process launches, environment and colour settings (main.rs), the packrat cache (never iterated)"})
